@@ -108,3 +108,16 @@ let () =
         | L [ty; from; flag] -> let (s', evts) = Model.deliver tbl !st (nat_of ty) (nat_of from) (as_bool flag) in st := s'; obs_of evts
         | _ -> raise (Bad "event")) (as_list evs))
     | _ -> raise (Bad "arity"))
+
+(* engine_final: only the final (round, result count) after start and a set of deliveries *)
+let () =
+  reg "engine_final" (fun a ->
+    match Hashtbl.find_opt table "engine" with
+    | None -> A "NoModelOp"
+    | Some f ->
+      (match f a with
+       | L obs when obs <> [] ->
+         (match List.nth obs (List.length obs - 1) with
+          | L [rnd; _; _; ends] -> L [rnd; ends]
+          | _ -> raise (Bad "obs"))
+       | _ -> raise (Bad "engine result")))
